@@ -52,6 +52,9 @@ func (s FSig) pname(i int, mode string) string {
 		return reservedNames[i%len(reservedNames)]
 	case "unnamed":
 		return ""
+	case "paramlike":
+		// user names that look like the names the generator mints for renamed parameters, shifted by one
+		return fmt.Sprintf("param_%d", i+1)
 	}
 	return fmt.Sprintf("a%d", i)
 }
@@ -208,7 +211,11 @@ func PlumbItem(id, kind string, s FSig) FItem {
 		}
 		fmt.Fprintf(&body, "\t\t\theld, heldLast = w, %s\n\t\t\tt.Reset()\n\t\t\t%sw(%s)\n", as[n-1], assign(rs), join(as[:n-1]))
 	case "uncurry":
-		inner := ftypeOf(s.P[1:], 1, s.R, s.Mode)
+		innerMode := s.Mode
+		if innerMode == "paramlike" {
+			innerMode = "unnamed" // outer parameter called param_1, inner parameters need renaming
+		}
+		inner := ftypeOf(s.P[1:], 1, s.R, innerMode)
 		outer := "func(" + strings.TrimPrefix(strings.TrimSuffix(ftypeOf(s.P[:1], 0, nil, s.Mode), ")"), "func(") + ") " + inner
 		retkw := "return "
 		if len(s.R) == 0 {
